@@ -25,6 +25,7 @@ RULE = (
     ' Round 9: all 256 node ids enumerated.'
     ' Round 10: every internal type with payload 0/1 arrives before the first rejected message.'
     ' Round 11: environment sweep (see C03); on a leak an owed presentation request is still reported.'
+    ' Round 12: hidden-switch sweep; tour events with application sends between two rejected messages; pass under `python -O`.'
 )
 ASSUMPTIONS = [
     "a failed request write surfaces as a transport error from that listen step (any library error is accepted)",
